@@ -63,6 +63,8 @@ type hist struct {
 	destroyCount                   int
 	govMinGas                      sdkmath.LegacyDec
 	wideSlots                      [][]byte
+	edgeDeployers                  []*vh.Acct // keys whose first contract lands at an address starting with 0xff / 0x00
+	hugeBaseFee                    bool       // quiet history: base fee above 2^64, empty blocks only
 }
 
 // Run drives the C18 workload.
@@ -105,6 +107,27 @@ func Run(run *vh.Run) {
 		}(i, label)
 	}
 	wg.Wait()
+	for k := 0; k < run.N(3, 20); k++ {
+		label := fmt.Sprintf("rt-huge-base-fee-%d", k)
+		if !run.WantCase(label) {
+			continue
+		}
+		rc := &recorder{}
+		recs = append(recs, rc)
+		func() {
+			defer func() {
+				if p := recover(); p != nil {
+					rc.viol = append(rc.viol, struct {
+						sig, label string
+						detail     any
+					}{"panic-while-driving-history", label, map[string]any{"panic": fmt.Sprint(p), "stack": clip(string(debug.Stack()), 6000)}})
+				}
+			}()
+			h := newHist(run, rc, label, -1-k)
+			defer h.c.Cleanup()
+			h.play(blocks)
+		}()
+	}
 	for _, rc := range recs {
 		if rc == nil {
 			continue
@@ -137,6 +160,8 @@ func Run(run *vh.Run) {
 	run.Floor("vauth proofs in exported states", run.Get("state_vauth_proofs"), int64(run.N(4, 100)))
 	run.Floor("histories with governance-changed params", run.Get("hist_gov_params_changed"), int64(run.N(3, 75)))
 	run.Floor("round trips with base fee different from genesis", run.Get("state_base_fee_moved"), int64(run.N(4, 100)))
+	run.Floor("round trips with a base fee above 2^64", run.Get("round_trips_with_a_base_fee_above_2^64"), int64(run.N(3, 20)))
+	run.Floor("contracts at addresses starting with 0xff or 0x00 in exported states", run.Get("state_contracts_at_edge_addresses"), int64(run.N(8, 200)))
 	run.Floor("genesis flag combinations", int64(run.DistinctN("flags")), 4)
 }
 
@@ -148,6 +173,10 @@ func clip(s string, n int) string {
 }
 
 func newHist(run *vh.Run, rec *recorder, label string, i int) *hist {
+	quiet := i < 0
+	if quiet {
+		i = 1000 - i // flags, validator count and RNG stream from a positive index of its own
+	}
 	r := run.RNG("history", i)
 	h := &hist{run: run, rec: rec, label: label, i: i, r: r, native: i&1 != 0, staking: i&2 != 0, finiteGas: (i/4)%2 == 0, reported: map[string]int{}}
 	h.dep, h.proposer = vh.NewAcct(r), vh.NewAcct(r)
@@ -160,6 +189,17 @@ func newHist(run *vh.Run, rec *recorder, label string, i int) *hist {
 		return cs
 	}
 	accs := []vh.GenAccount{{Addr: h.dep.Addr, Coins: extra(5_000_000)}, {Addr: h.proposer.Addr, Coins: vh.NativeCoins(1000)}}
+	// keys mined so that their first contract sits at the edges of the address space (first byte 0xff, 0x00)
+	for _, first := range []byte{0xff, 0x00} {
+		for {
+			a := vh.NewAcct(r)
+			if crypto.CreateAddress(a.Addr, 0)[0] == first {
+				h.edgeDeployers = append(h.edgeDeployers, a)
+				accs = append(accs, vh.GenAccount{Addr: a.Addr, Coins: vh.NativeCoins(1000)})
+				break
+			}
+		}
+	}
 	for k := 0; k < 3; k++ {
 		a := vh.NewAcct(r)
 		h.holders = append(h.holders, a)
@@ -173,6 +213,12 @@ func newHist(run *vh.Run, rec *recorder, label string, i int) *hist {
 		BaseFee: big.NewInt(int64(vh.Pick(r, []int{1_000_000_000, 7_000_000_000, 50_000_000_000}))), MinGasPrice: vh.Pick(r, []string{"0", "1000", "250000.5"})}
 	if h.finiteGas {
 		cfg.MaxGas = int64(vh.Pick(r, []int{3_000_000, 5_000_000, 8_000_000}))
+	}
+	if quiet { // quiet history with a base fee that does not fit 64 bits (nobody can afford a transaction; none is sent)
+		h.hugeBaseFee = true
+		bf := new(big.Int).Lsh(big.NewInt(int64(2+r.Intn(1000))), 64)
+		cfg.BaseFee = bf.Add(bf, new(big.Int).SetUint64(r.U64()))
+		cfg.MinGasPrice = vh.Pick(r, []string{"0", "1000", "20000000000000000000.5"})
 	}
 	for k := 0; k < 6; k++ {
 		sl := r.Bytes(32)
@@ -286,6 +332,16 @@ func codelessInit(v uint64) []byte {
 func (h *hist) play(blocks int) {
 	r := h.r
 	w := h.w
+	if h.hugeBaseFee {
+		for b := 0; b < 2+r.Intn(4); b++ {
+			if br := h.block(nil); br.Err != nil {
+				return
+			}
+		}
+		h.run.Count("round_trips_with_a_base_fee_above_2^64", 1)
+		h.roundTrip("end-huge-base-fee")
+		return
+	}
 	e0 := w.EOAs[0]
 	w.DeployGenerated(8, nil)
 	// hand-written contracts by EOA 0 (create addresses from its nonce)
@@ -306,6 +362,9 @@ func (h *hist) play(blocks int) {
 		}
 	}
 	h.child = crypto.CreateAddress2(h.factory, common.BigToHash(big.NewInt(1)), crypto.Keccak256(childInit))
+	for k, d := range h.edgeDeployers {
+		txs = append(txs, w.PlanEth(d, nil, nil, 1_500_000, initStoring(uint64(0x70+k), childRuntime()), "ok", nil).Bytes)
+	}
 	// first dynamic ERC-20 precompile
 	txs = append(txs, h.deployErc20Tx(h.extraDenoms[0]))
 	h.block(txs)
